@@ -5,7 +5,7 @@ import ast
 import re as _re
 import re._parser as _sp
 
-from ..absint import new_interp, Interp, HList, HDict, HInst, HGen, NONE, const, is_const, fmt, mk_not
+from ..absint import new_interp, Interp, HList, HDict, HInst, HGen, NONE, const, is_const, fmt, mk_not, mk_cmp, mk_cond
 from ..astutil import unparse, dotted, walk_no_nested_defs
 from ..berp import grammar
 from ..names import N
@@ -386,9 +386,15 @@ def rule_partial(rep: Report, rid="C01.partial") -> None:
                 ok = False
                 why = None
                 # guards: truthiness or length test of the same sequence
+                ln_ = ("call", "len", (base,), ())
                 for gcond, pol in guards:
-                    if pol and (gcond == base or (gcond[0] == "cmp" and gcond[1] in ("Eq", "Gt", "GtE") and gcond[2] == ("call", "len", (base,), ()) and is_const(gcond[3])
-                                                  and ((gcond[1] == "Eq" and gcond[3][1] >= 1) or (gcond[1] == "Gt" and gcond[3][1] >= 0) or (gcond[1] == "GtE" and gcond[3][1] >= 1)))):
+                    if pol and (gcond == base or gcond == ln_ or (gcond[0] == "cmp" and gcond[1] == "Eq" and gcond[2] == ln_ and is_const(gcond[3])
+                                                                  and isinstance(gcond[3][1], int) and gcond[3][1] >= 1)):
+                        ok, why = True, "guarded"
+                    # canonical order tests: ``len(xs) >= k`` is ``not len(xs) < k``
+                    if not pol and gcond[0] == "cmp" and gcond[1] == "Lt" and gcond[2] == ln_ and is_const(gcond[3]) and isinstance(gcond[3][1], int) and gcond[3][1] >= 1:
+                        ok, why = True, "guarded"
+                    if not pol and gcond[0] == "cmp" and gcond[1] == "Eq" and gcond[2] == ln_ and is_const(gcond[3], 0):
                         ok, why = True, "guarded"
                 if not ok:
                     # a composite guard (e.g. the truthiness of ``xs[0] if xs else None``) that can only hold when the sequence is non-empty
